@@ -20,6 +20,9 @@ import (
 
 func switchRecipe(salt uint64, seed uint64, i int) *rec.Rec {
 	r := prng.Derive(seed, salt, uint64(i))
+	if i%satEvery == satEvery-1 { // a list filled up to the frame limit
+		return gen.SaturatedSwitch(r, i/satEvery)
+	}
 	kind := gen.SwitchKinds[i%len(gen.SwitchKinds)]
 	if i%3 == 1 {
 		kind = []string{"packet_in", "mp_reply:flow", "flow_removed", "packet_in", "mp_reply:flow", "port_status"}[(i/3)%6]
